@@ -60,6 +60,8 @@ def gates(c, tier):
         out.append("base class LDAPSession never driven")
     if c.get("exhaustive-histories", 0) == 0:
         out.append("bounded-exhaustive part did not run")
+    if c.get("crafted:ms-adts-notice", 0) == 0:
+        out.append("no notice of disconnection in Active Directory's form was delivered")
     return out
 
 
@@ -201,6 +203,7 @@ def run_shard(ctx: Ctx, acc: Acc):
                 if bad:
                     for key, what in bad:
                         acc.violation(key, what, {"single": role, "steps": concrete, "letters": [letters[x] for x in seq]})
+    acc.count("crafted:ms-adts-notice", H.MS_ADTS_NOTICES)
 
 
 def replay(w):
